@@ -67,3 +67,48 @@ func VerifDecodeNode(hash, buf []byte) (string, error) {
 func VerifDump(t *Trie) string {
 	return fmt.Sprintf("%d/%d/%s", t.cachegen, t.cachelimit, verifRender(t.root))
 }
+
+// VerifDbNode is one node of the memory layer of a trie.Database.
+type VerifDbNode struct {
+	Hash     []byte
+	Blob     []byte
+	Children [][]byte // child references, sorted
+}
+
+// VerifDbDump returns the memory layer (nodes with their child references, sorted by hash)
+// and the pending preimages (database key -> preimage, sorted by key) of a trie.Database.
+func VerifDbDump(db *Database) (nodes []VerifDbNode, preimages [][2][]byte) {
+	db.lock.RLock()
+	defer db.lock.RUnlock()
+	for h, n := range db.nodes {
+		vn := VerifDbNode{Hash: append([]byte{}, h[:]...), Blob: append([]byte{}, n.blob...)}
+		for c := range n.children {
+			vn.Children = append(vn.Children, append([]byte{}, c[:]...))
+		}
+		sortBytes(vn.Children)
+		nodes = append(nodes, vn)
+	}
+	for i := 1; i < len(nodes); i++ {
+		for j := i; j > 0 && string(nodes[j].Hash) < string(nodes[j-1].Hash); j-- {
+			nodes[j], nodes[j-1] = nodes[j-1], nodes[j]
+		}
+	}
+	for h, p := range db.preimages {
+		k := append([]byte{}, db.secureKey(h[:])...)
+		preimages = append(preimages, [2][]byte{k, append([]byte{}, p...)})
+	}
+	for i := 1; i < len(preimages); i++ {
+		for j := i; j > 0 && string(preimages[j][0]) < string(preimages[j-1][0]); j-- {
+			preimages[j], preimages[j-1] = preimages[j-1], preimages[j]
+		}
+	}
+	return nodes, preimages
+}
+
+func sortBytes(l [][]byte) {
+	for i := 1; i < len(l); i++ {
+		for j := i; j > 0 && string(l[j]) < string(l[j-1]); j-- {
+			l[j], l[j-1] = l[j-1], l[j]
+		}
+	}
+}
